@@ -15,7 +15,7 @@ import io
 import sys
 
 from ..runner import BaseCheck
-from ..oracle import canon, outcome
+from ..oracle import canon, outcome, stable_text
 from ..gen import exprs as G
 from .. import env, hx
 from . import c08 as C08, c10 as C10, c01 as C01
@@ -133,6 +133,8 @@ class Check(BaseCheck):
         for i in range(16):
             specs.append({'campaign': 'histories', 'seed': seed, 'n': 80 if q else 2500, 'i': i, 'maxlen': 60 if i % 2 else 200})
             specs.append({'campaign': 'mutation', 'seed': seed, 'i': i, 'k': 16})
+        for k in range(4 if q else 8):
+            specs.append({'campaign': 'order', 'seed': seed, 'perm': k, 'per_function': 14 if q else 60})
         specs.append({'campaign': 'retention', 'K': 120 if q else 400, 'R': 8 if q else 30, 'seed': seed, 'mix': 'failing'})
         specs.append({'campaign': 'retention', 'K': 120 if q else 400, 'R': 8 if q else 30, 'seed': seed, 'mix': 'succeeding'})
         return specs
@@ -323,6 +325,79 @@ class Check(BaseCheck):
                     rec.violation('C02/custom-function-result-mutated:' + f.split('(')[0][:20], formula=f, now=v, before=before)
             rec.count('snapshot_comparisons', len(lists) + len(delivered) + len(range_vals) + len(cell_vals) + len(returned))
         rec.sample({'formulas': forms[:4], 'host_lists': sorted(lists)[:6]})
+
+    # ------------------------------------------------------------------ (a') evaluation order across processes
+    def order_formulas(self, seed, per_function):
+        """the same list in every shard: each supported deterministic function on several argument tuples, plus the fixed probes"""
+        import random
+        from hotxlfp import formulas
+        rnd = random.Random('order:%s' % seed)
+        nums = ['0', '1', '2', '3', '4', '14', '499', '900', '1500', '1987', '2000', '3999', '-1', '0.5', '2.5', '12', '255', '16', '10', '36', '100', '-7', '1900', '2020', '31', '61']
+        texts = ['"abc"', '"a,b"', '""', '"MCMXC"', '"FF"', '"2020-02-29"', '">2"', '"a*"', '"12"', '{1,2,3}', '{3,1,2;6,5,4}', 'TRUE', 'NULL', 'DATE(2020,1,31)', 'lst', 'txt', 'A1', 'A1:B2']
+        out = []
+        for fn in formulas.supported():
+            if fn in NONDET:
+                continue
+            for _ in range(per_function):
+                ar = rnd.choice([1, 1, 2, 2, 3])
+                args = [rnd.choice(nums if rnd.random() < 0.7 else texts) for _ in range(ar)]
+                out.append('%s(%s)' % (fn, ','.join(args)))
+        out += [f for f in self.probes(rnd, 200)]
+        return sorted(set(out))
+
+    def c_order(self, spec, rec):
+        import random
+        fs = self.order_formulas(spec['seed'], spec['per_function'])
+        idx = list(range(len(fs)))
+        if spec['perm'] == 1:
+            idx.reverse()
+        elif spec['perm'] > 1:
+            random.Random('perm:%s:%s' % (spec['seed'], spec['perm'])).shuffle(idx)
+        p = build(Bindings(), False)
+        res = {}
+        for i in idx:
+            res[i] = stable_text(outcome(p.parse(fs[i])))[:300]
+            rec.case()
+        rec.series['order.%d' % spec['perm']] = {'outcomes': res, 'formulas': len(fs)}
+        rec.series['order.seed'] = spec['seed']
+        rec.series['order.per_function'] = spec['per_function']
+        rec.count('order_evaluations', len(fs))
+        rec.sample({'formulas_in_list': len(fs), 'permutation': spec['perm'], 'first': [fs[i] for i in idx[:4]]})
+
+    def cross(self, merged):
+        """the same formulas were evaluated in different orders in different processes: every outcome must agree"""
+        runs = {k: v for k, v in merged['series'].items() if k.startswith('order.') and isinstance(v, dict)}
+        out = []
+        if len(runs) < 2:
+            return out
+        keys = sorted(runs)
+        base = runs[keys[0]]
+        import random
+        fs = None
+        nd = 0
+        for k in keys[1:]:
+            other = runs[k]
+            for i, o in base['outcomes'].items():
+                if other['outcomes'].get(i) != o:
+                    nd += 1
+                    if len(out) < 6:
+                        if fs is None:
+                            env.load()
+                            fs = self.order_formulas(int(self._seed_of(merged)), self._per_function_of(merged))
+                        f = fs[int(i)] if int(i) < len(fs) else '?'
+                        out.append(('C02/outcome-depends-on-what-the-process-evaluated-before:' + f.split('(')[0][:16],
+                                    {'formula': f, 'in_order_%s' % keys[0]: o, 'in_order_%s' % k: other['outcomes'].get(i),
+                                     'shard': {'campaign': 'order', 'cross': True}}))
+        merged['counts']['order_outcomes_compared'] = len(base['outcomes']) * (len(keys) - 1)
+        for i in range(min(len(base['outcomes']), 400)):
+            merged['nontrivial'].add(hash(('order', i)) & 0xffffffffffff)
+        return out
+
+    def _seed_of(self, merged):
+        return merged['series'].get('order.seed', 0)
+
+    def _per_function_of(self, merged):
+        return merged['series'].get('order.per_function', 14)
 
     # ------------------------------------------------------------------ (c) retention
     def c_retention(self, spec, rec):
